@@ -59,6 +59,7 @@ type Op struct {
 	Lane   int     `json:"lane,omitempty"` // inside a free-running "par": ops with the same lane > 0 run one after the other in one goroutine (a sequential client)
 	KillAfterUs int `json:"kill_after_us,omitempty"` // remote mode: SIGKILL the binary this many microseconds after the request was sent
 	Arrivals bool  `json:"arrivals,omitempty"` // free-running "par": while the requests run, new accounts keep being created through the process service
+	Alt    bool    `json:"alt,omitempty"` // remote mode: sent to the SECOND process (started by an "overlap" op on the same directories) if there is one
 	Fork   int     `json:"fork,omitempty"` // which of several "forks" the request's domain belongs to (the bytes after the domain type)
 	N      int     `json:"n,omitempty"` // for Kind "scatter": batch size
 	P      int     `json:"p,omitempty"` // for Kind "scatter": GOMAXPROCS
